@@ -13,7 +13,11 @@ ASSUMPTIONS = ["reference: harness/ref.py with Fractions: add/sub/neg and multip
                "fixed-point (or integer / boolean, with a fixed-point operand) value and followed by reads of the original: the reference "
                "treats values as immutable, the model maps `iop` to the binary operator (no class of the modelled tree defines __iadd__ "
                "& co, so Python evaluates t = t + x)"]
-PARTIAL = []
+PARTIAL = ["C14_program (program level) is for completing runs inside FxpFragment (Spec/FxpProg.lean, table Instr.fxExcl); excluded with reason: "
+           "guardRegion, ignoreErrors (set ign), resAfterFxp (set res while a fixed-point value exists: values are not rescaled), "
+           "lincombStrictCompareFxp (finding C14-lincomb-strict-compare-fxp), negativeShift / secretShift (C05 findings), fxpPow, "
+           "integerBitOp, boolOperand, unaryOther, otherMethod (assertions, to_bits/from_bits, explicit widths), containerSelect, "
+           "secretIndex, secretLiteral, operandKind; the gadget-level theorems C14_*_exact have no such restriction"]
 LEVELS = "V"
 FX_KINDS = [("X", "X"), ("X", "X"), ("X", "L"), ("L", "X"), ("X", "I"), ("I", "X"), ("X", "F"), ("F", "X"), ("X", "B"), ("B", "X")]
 FX_OPS = ["add", "sub", "mul", "truediv", "floordiv", "mod", "lt", "le", "eq", "ne", "gt", "ge"]
